@@ -10,7 +10,6 @@ import (
 	"path/filepath"
 	"sort"
 	"strings"
-	"sync"
 
 	"github.com/antlr/antlr4/runtime/Go/antlr"
 	"github.com/anz-bank/golden-retriever/reader"
@@ -195,15 +194,15 @@ type srcInput struct {
 }
 
 type fileInfo struct {
-	imports []importDef
-	src     srcInput
+	imports  []importDef
+	src      srcInput
+	importer *fileInfo // the file whose import statement first introduced this one (nil for the root)
 }
 
 type retrievedListIndex string
 
 type retrievedList struct {
-	l     map[retrievedListIndex]*fileInfo
-	mutex sync.Mutex
+	l map[retrievedListIndex]*fileInfo
 }
 
 func fileNameToIndex(filename string) retrievedListIndex {
@@ -226,7 +225,7 @@ func (p *Parser) Parse(resource string, reader reader.Reader) (*sysl.Module, err
 		resource += syslExt
 	}
 
-	retrieved := retrievedList{make(map[retrievedListIndex]*fileInfo), sync.Mutex{}}
+	retrieved := retrievedList{make(map[retrievedListIndex]*fileInfo)}
 
 	if err := p.collectSpecs(
 		context.Background(),
@@ -234,7 +233,6 @@ func (p *Parser) Parse(resource string, reader reader.Reader) (*sysl.Module, err
 		reader,
 		&retrieved,
 		p.MaxImportDepth,
-		0,
 	); err != nil {
 		return nil, err
 	}
@@ -368,71 +366,113 @@ func flattenSpecs(specs *[]srcInput, filename string, retrieved *retrievedList) 
 	}
 }
 
-// collectSpecs retrieves the contents for a sourceFile. It then parses the source to find all imports and recursively
-// (and in parallel) retrieves those as well. All the results are placed into the retrievedList.
+// collectSpecs retrieves the contents of source and, level by level, of every file it imports directly or
+// indirectly. The files of one level are first claimed in import order, so that neither the import statement that
+// introduces a file nor the depth at which it is found depends on how long the reads take, and are then read in
+// parallel. All the results are placed into the retrievedList.
 func (p *Parser) collectSpecs(
 	ctx context.Context,
 	source importDef,
 	reader reader.Reader,
 	retrieved *retrievedList,
-	maxImportDepth, currentImportDepth int,
+	maxImportDepth int,
 ) error {
-	if maxImportDepth > 0 && currentImportDepth >= maxImportDepth {
-		return nil
+	type pendingImport struct {
+		def      importDef
+		importer *fileInfo
 	}
 
-	filenameIndex := fileNameToIndex(source.filename)
-	retrieved.mutex.Lock()
-	if fi, has := retrieved.l[filenameIndex]; has {
-		retrieved.mutex.Unlock()
-		verifhook.Note("claimed", "seen "+source.filename)
-
-		if !p.NoDifferentVersionCheck {
-			appname1 := strings.ReplaceAll(fi.src.src.appname, " :: ", "::")
-			appname2 := strings.ReplaceAll(source.appname, " :: ", "::")
-			if appname1 != appname2 {
-				return syslutil.Exitf(ImportError, fmt.Sprintf(
-					"%#v imported as different appnames: '%v' and '%v'", filenameIndex, appname1, appname2,
-				))
+	level := []pendingImport{{def: source}}
+	for depth := 0; len(level) > 0 && (maxImportDepth <= 0 || depth < maxImportDepth); depth++ {
+		fresh := []*fileInfo{}
+		for _, imp := range level {
+			filenameIndex := fileNameToIndex(imp.def.filename)
+			if fi, has := retrieved.l[filenameIndex]; has {
+				verifhook.Note("claimed", "seen "+imp.def.filename)
+				if err := p.checkSameImport(filenameIndex, fi.src.src, imp.def); err != nil {
+					return importedFrom(imp.importer, err)
+				}
+				continue
 			}
-
-			ver1 := ""
-			i := strings.Index(fi.src.src.filename, "@")
-			if i > -1 {
-				ver1 = fi.src.src.filename[i+1:]
-			}
-
-			ver2 := ""
-			i = strings.Index(source.filename, "@")
-			if i > -1 {
-				ver2 = source.filename[i+1:]
-			}
-
-			// treat master/main/develop as default
-			switch ver1 {
-			case "master", "main", "develop":
-				ver1 = ""
-			}
-			switch ver2 {
-			case "master", "main", "develop":
-				ver2 = ""
-			}
-
-			if ver1 != ver2 {
-				return syslutil.Exitf(ImportError, fmt.Sprintf(
-					"%#v imported as different versions: '%v' and '%v'", filenameIndex, ver1, ver2,
-				))
-			}
+			fi := &fileInfo{importer: imp.importer}
+			fi.src.src = imp.def
+			retrieved.l[filenameIndex] = fi
+			fresh = append(fresh, fi)
+			verifhook.Note("claimed", "new "+imp.def.filename)
 		}
 
+		g := new(errgroup.Group)
+		for _, fi := range fresh {
+			fi := fi
+			g.Go(func() error {
+				verifhook.Yield("claim", fi.src.src.filename)
+				return importedFrom(fi.importer, retrieveSpec(ctx, fi, reader))
+			})
+		}
+		if err := g.Wait(); err != nil {
+			return err
+		}
+
+		level = level[:0]
+		for _, fi := range fresh {
+			for _, c := range fi.imports {
+				level = append(level, pendingImport{def: c, importer: fi})
+			}
+		}
+	}
+
+	return nil
+}
+
+// checkSameImport reports an error if a file that was already imported as first is now imported as second under
+// a different application name or version.
+func (p *Parser) checkSameImport(filenameIndex retrievedListIndex, first, second importDef) error {
+	if p.NoDifferentVersionCheck {
 		return nil
 	}
-	fi := &fileInfo{}
-	fi.src.src = source
-	retrieved.l[filenameIndex] = fi
-	retrieved.mutex.Unlock()
-	verifhook.Note("claimed", "new "+source.filename)
 
+	appname1 := strings.ReplaceAll(first.appname, " :: ", "::")
+	appname2 := strings.ReplaceAll(second.appname, " :: ", "::")
+	if appname1 != appname2 {
+		return syslutil.Exitf(ImportError, fmt.Sprintf(
+			"%#v imported as different appnames: '%v' and '%v'", filenameIndex, appname1, appname2,
+		))
+	}
+
+	ver1 := ""
+	i := strings.Index(first.filename, "@")
+	if i > -1 {
+		ver1 = first.filename[i+1:]
+	}
+
+	ver2 := ""
+	i = strings.Index(second.filename, "@")
+	if i > -1 {
+		ver2 = second.filename[i+1:]
+	}
+
+	// treat master/main/develop as default
+	switch ver1 {
+	case "master", "main", "develop":
+		ver1 = ""
+	}
+	switch ver2 {
+	case "master", "main", "develop":
+		ver2 = ""
+	}
+
+	if ver1 != ver2 {
+		return syslutil.Exitf(ImportError, fmt.Sprintf(
+			"%#v imported as different versions: '%v' and '%v'", filenameIndex, ver1, ver2,
+		))
+	}
+
+	return nil
+}
+
+// retrieveSpec reads the contents of a claimed file and parses its import statements.
+func retrieveSpec(ctx context.Context, fi *fileInfo, reader reader.Reader) error {
+	source := fi.src.src
 	content, hash, branch, err := reader.ReadHashBranch(ctx, source.filename)
 	if err != nil {
 		return syslutil.Exitf(ImportError, fmt.Sprintf(
@@ -452,30 +492,18 @@ func (p *Parser) collectSpecs(
 		version = hash.String()
 	}
 
-	children, err := parseImports(source, sourceCtxHelper{source.filename, version}, importsInput.String())
-	if err != nil {
-		return err
-	}
+	fi.imports, err = parseImports(source, sourceCtxHelper{source.filename, version}, importsInput.String())
+	return err
+}
 
-	fi.imports = children
-
-	g := new(errgroup.Group)
-	for _, c := range children {
-		c := c
-		g.Go(func() error {
-			verifhook.Yield("claim", source.filename+" -> "+c.filename+" as "+c.pkg+"."+c.appname+" "+c.mode)
-			return p.collectSpecs(ctx, c, reader, retrieved, maxImportDepth, currentImportDepth+1)
-		})
-	}
-
-	err = g.Wait()
-	if err != nil {
-		return syslutil.Exitf(ImportError, fmt.Sprintf(
-			"error reading %#v: \n%v", source.filename, err,
+// importedFrom wraps an error with the chain of files whose import statements led to it.
+func importedFrom(importer *fileInfo, err error) error {
+	for ; err != nil && importer != nil; importer = importer.importer {
+		err = syslutil.Exitf(ImportError, fmt.Sprintf(
+			"error reading %#v: \n%v", importer.src.src.filename, err,
 		))
 	}
-
-	return nil
+	return err
 }
 
 var importStmtPrefix = []byte("import ")
